@@ -19,11 +19,11 @@ from common import Check, run_impl, standard_proof_step, TRUSTED_COMMON
 IMPORTS = "From XV Require Import Base.Str Base.Eqb Model.Bind Model.EventGen Model.DictCodec Model.DictCodecCorr."
 SLICE_MIX = [("F1",), ("F1",), ("F1", "F2"), ("F1", "F2", "F3"), ("F1", "F2", "F3")]
 CHECKS = ["agree_json_decode", "in_proved_slice", "theorem_instance", "negb_ambiguous", "agree_encode", "agree_decode", "oracle_roundtrip", "oracle_strict_json", "is_typed", "in_guard",
-          "not_class 0", "not_class 1", "not_class 2", "not_class 4", "not_class 5", "not_class 7", "not_class 10", "not_class 12", "roundtrip_ok",
+          "not_class 0", "not_class 1", "not_class 2", "not_class 4", "not_class 7", "not_class 10", "not_class 12", "roundtrip_ok",
           "not_class 98"]
 CLASS_NAMES = {"not_class 1": "json-key-collision", "not_class 2": "null-decodes-to-default",
                "not_class 4": "compound-choice-shadowed-in-json", "not_class 10": "best-match-tie",
-               "not_class 5": "tuple-field", "not_class 7": "generic-keys-filtered",
+               "not_class 7": "generic-keys-filtered",
                "not_class 12": "best-match-guess"}
 
 
